@@ -261,4 +261,55 @@ theorem i32NonPos_iff_key (x : UInt32) : i32NonPos x = true ↔ i32Key x ≤ 214
       simp at this
       omega
 
+/-- `build_gap_ack_blocks_from_map` never returns more than `MAX_GAP_ACK_BLOCKS` blocks -/
+theorem gapLoop_length (cum : UInt32) : ∀ (rest : List UInt32) (cur : Option (UInt32 × UInt32)) (blocks : List (UInt16 × UInt16)),
+    blocks.length < sctpGapBlocksMax → (gapLoop cum rest cur blocks).1.length ≤ sctpGapBlocksMax := by
+  intro rest
+  induction rest with
+  | nil => intro cur blocks h; simp only [gapLoop]; omega
+  | cons t rest ih =>
+    intro cur blocks h
+    have hp : ∀ c, (pushBlock cum blocks c).length ≤ blocks.length + 1 := by
+      intro c; simp only [pushBlock]; split <;> simp
+    unfold gapLoop
+    split
+    · exact ih cur blocks h
+    · cases cur with
+      | none =>
+        simp only []
+        split
+        · simp only [] at *; omega
+        · exact ih _ _ h
+      | some se =>
+        obtain ⟨st, en⟩ := se
+        simp only []
+        split
+        · split
+          · simp only [] at *; omega
+          · exact ih _ _ h
+        · split
+          · have := hp (st, en); simp only [] at *; omega
+          · next hlt => exact ih _ _ (by have h' := hlt; simp only [ge_iff_le, Nat.not_le] at h'; exact h')
+
+
+theorem applySack_nil (cum : UInt32) (gaps : List (UInt16 × UInt16)) (now : Nat) (cm : Bool) (mx : Nat) :
+    (applySack [] cum gaps now cm mx).1 = [] := by
+  have hg : ∀ (gs : List (UInt16 × UInt16)) (o : SackOutcome), (gs.foldl (gapBlockApply now cum) ([], o)).1 = [] := by
+    intro gs
+    induction gs with
+    | nil => intro o; rfl
+    | cons g rest ih =>
+      intro o
+      have : gapBlockApply now cum ([], o) g = ([], o) := by
+        simp [gapBlockApply, gapSelect]
+      simp only [List.foldl_cons, this]; exact ih o
+  simp only [applySack, lateSack, serialMin, Bool.false_eq_true, if_false, List.filter_nil, List.foldl_nil]
+  have := hg gaps { maxReported := maxReportedOf cum gaps }
+  generalize gaps.foldl (gapBlockApply now cum) ([], _) = st at this ⊢
+  obtain ⟨q, o⟩ := st
+  simp only at this
+  subst this
+  simp [missingPass]
+
+
 end RtcModel.Sctp
